@@ -45,7 +45,7 @@ func buildDocumentIdentifier(doc *spdx23.Document) string {
 
 // ParseStream reads an io.Reader to parse an SPDX 2.3 document from it
 func (u *SPDX23) Unserialize(r io.Reader, _ *native.UnserializeOptions, _ interface{}) (*sbom.Document, error) {
-	spdxDoc, err := spdxjson.Read(r)
+	spdxDoc, err := readSPDXJSON(r)
 	if err != nil {
 		return nil, fmt.Errorf("parsing SPDX json: %w", err)
 	}
@@ -105,6 +105,19 @@ func (u *SPDX23) Unserialize(r io.Reader, _ *native.UnserializeOptions, _ interf
 	}
 
 	return bom, nil
+}
+
+// readSPDXJSON decodes the SPDX document. The SPDX library panics on some
+// malformed inputs (for example a null entry in the packages array), untrusted
+// data must surface as an error instead.
+func readSPDXJSON(r io.Reader) (doc *spdx.Document, err error) {
+	defer func() {
+		if rec := recover(); rec != nil {
+			doc = nil
+			err = fmt.Errorf("malformed SPDX document: %v", rec)
+		}
+	}()
+	return spdxjson.Read(r)
 }
 
 // packageToNode assigns the data from an SPDX package into a new Node
